@@ -10,10 +10,6 @@ CLAIMS = {
 }
 
 NOT_APPLICABLE = {
-    "C17": "sorted_combinations completeness/key order and exactness of the interval search are value-level facts of a "
-           "heap-driven enumeration; no pairing/ordering/ownership shape implies or is implied by them, and deciding them "
-           "means running the algorithm (concretely, symbolically or over enumerated abstract inputs), which is a "
-           "different technique family than static analysis",
 }
 
 
